@@ -14,7 +14,8 @@
    sockets (a blocked Read/Write is released only by closing the socket),
    pion/dtls internals, real-time bounds. *)
 From Coq Require Import List Bool String Arith.
-From GoCoap Require Import Liveness.Model Liveness.Close Liveness.Spec Liveness.Proofs Liveness.Stall Liveness.StallProofs Gen.WakeSets.
+From GoCoap Require Import Liveness.Model Liveness.Close Liveness.Spec Liveness.Proofs Liveness.Stall Liveness.StallProofs
+  Liveness.Table Liveness.TableProofs Liveness.Stop Liveness.StopProofs Gen.WakeSets.
 Import ListNotations.
 Local Open Scope list_scope.
 
@@ -229,6 +230,127 @@ Proof.
 Qed.
 Print Assumptions C09_stalled_write_returns_refuted.
 
+(* ---------- the housekeeping and the table of pending message IDs (lock model, Liveness/Table.v) ----------
+   Threads over the actions of a sync.RWMutex (RLock / RUnlock; Lock = announce, then acquire; Unlock), a reader
+   waits while a writer holds the lock or is announced, a writer while anybody holds it.  For ARBITRARY thread
+   programs made of complete, non-nested critical sections -- any number of housekeeping walks in the shape of
+   Map.Range (read lock released around every callback, callbacks that remove entries or not), operations that
+   store and later remove their entry, clean-ups of waiting operations, acknowledgements -- under every schedule:
+   never stuck; from the state reached the system completes (every walk, every operation, every clean-up, i.e.
+   every blocked call whose wait has ended, returns); and then the lock is free. *)
+Theorem C09_table_never_stuck : forall ts sched,
+  Forall (fun p => sec_ok p = true) ts ->
+  let x := texec (t_init, ts) sched in
+  (~ tall_done (snd x) -> exists tid, tcan_run x tid = true) /\
+  (exists ext, tall_done (snd (texec x ext))) /\
+  (tall_done (snd x) -> fst x = t_init).
+Proof. exact table_never_stuck. Qed.
+Print Assumptions C09_table_never_stuck.
+
+(* every step taken shortens the programs by one action (so at most [tmeasure] steps are ever taken: with the above,
+   every fair schedule completes), and a thread that cannot run leaves the system unchanged *)
+Theorem C09_table_steps_bounded : forall x tid,
+  (tcan_run x tid = true -> S (tmeasure (snd (tstep x tid))) = tmeasure (snd x)) /\
+  (tcan_run x tid = false -> tstep x tid = x).
+Proof. intros x tid. split; [apply tstep_measure|apply tstep_idle]. Qed.
+Print Assumptions C09_table_steps_bounded.
+
+(* the library: any number of concurrent housekeeping walks over any entries (each given up or not), any number of
+   operations, clean-ups and acknowledgements *)
+Theorem C09_housekeeping_never_blocks_operations : forall walks nops ncleanups nacks sched,
+  let x := texec (t_init, lib_table_sys walks nops ncleanups nacks) sched in
+  (~ tall_done (snd x) -> exists tid, tcan_run x tid = true) /\
+  (exists ext, tall_done (snd (texec x ext))) /\
+  (tall_done (snd x) -> fst x = t_init).
+Proof. exact housekeeping_never_blocks_operations. Qed.
+Print Assumptions C09_housekeeping_never_blocks_operations.
+
+(* tie to the source: the walk Conn.CheckExpirations uses in the CURRENT source (Gen/WakeSets.v, regenerated on every
+   run: which method of pkg/sync.Map, and whether its range loop releases the read lock around the callback) is of
+   that shape, whatever the callbacks do *)
+Theorem C09_mid_walk_shape : mid_walk_unlocks = true /\ forall dels, sec_ok (walk mid_walk_unlocks dels) = true.
+Proof. split; [reflexivity|]. intros dels. change mid_walk_unlocks with true. apply walk_range_ok. Qed.
+Print Assumptions C09_mid_walk_shape.
+
+(* that the read lock is released around the callback is essential: a walk that keeps it (Map.Range2) and gives one
+   message up parks on itself for ever, and so do the clean-up of the call that waits for that message (the call
+   never returns, whatever happens to its context or to the connection) and every later operation *)
+Theorem C09_walk_under_read_lock_deadlocks :
+  exists pre, forall sched,
+    let x := texec (t_init, tick_sys false true 1) (pre ++ sched) in
+    nth_error (snd x) 0 = Some [TWAcq; TWUnlock; TRUnlock] /\
+    nth_error (snd x) 1 = Some [TWAcq; TWUnlock] /\
+    nth_error (snd x) 2 = Some (TWAcq :: TWUnlock :: wsec) /\
+    forall tid, tcan_run x tid = false.
+Proof. exact walk_under_read_lock_deadlocks. Qed.
+Print Assumptions C09_walk_under_read_lock_deadlocks.
+
+(* ---------- stopping a datagram server (Liveness/Stop.v) ----------
+   Threads over: the server's cancel, closeSessions (take the peer table, then per peer Close + close function), a
+   new peer entering the table, the server's doneCancel, a peer's close function, and the atomic actions of Close.v
+   on a peer's session; a peer's Done() is completed by its own doneCancel OR by the server's (child context).
+   For ARBITRARY programs that run callbacks only after popping them and register none, BOTH shapes of shutdown, every
+   schedule, at every moment: no callback of any peer has run twice. *)
+Theorem C09_stop_callbacks_at_most_once : forall v tbl cbs ts sched,
+  Forall (fun p => forallb top_act p = true) ts ->
+  (forall p, NoDup (cbs p)) ->
+  let x := sexec v (s_init tbl cbs, ts) sched in
+  forall p f, count_occ Nat.eq_dec (c_ran (s_peer (fst x) p)) f <= 1.
+Proof. exact stop_callbacks_at_most_once. Qed.
+Print Assumptions C09_stop_callbacks_at_most_once.
+
+(* with the library's shutdown, for arbitrary programs in which every peer a thread admits is followed, in that
+   thread, by a closeSessions and every pop by the completion of that peer's done signal, at least one closeSessions,
+   any initial table, every schedule: when all threads have returned the table is empty and every callback of every
+   peer that was in the table or was admitted meanwhile has run exactly once, nothing else has run, Done is completed *)
+Theorem C09_stop_runs_every_callback_once : forall tbl cbs ts sched,
+  Forall (fun p => forallb top_act p = true) ts ->
+  Forall (fun p => ok_prog p = true) ts ->
+  (tbl = [] \/ 1 <= scnt_ts ws_take ts) ->
+  (forall p, NoDup (cbs p)) ->
+  let x := sexec ShutLib (s_init tbl cbs, ts) sched in
+  sall_done (snd x) ->
+  s_table (fst x) = [] /\
+  forall p, tracked tbl ts p ->
+    (forall f, In f (cbs p) -> count_occ Nat.eq_dec (c_ran (s_peer (fst x) p)) f = 1) /\
+    (forall f, ~ In f (cbs p) -> count_occ Nat.eq_dec (c_ran (s_peer (fst x) p)) f = 0) /\
+    peer_done (fst x) p = true.
+Proof. exact stop_runs_every_callback_once. Qed.
+Print Assumptions C09_stop_runs_every_callback_once.
+
+(* the library: any number of concurrent Stop calls, the exit path of Serve (which may still admit peers before it
+   ends), any sweeps of the periodic tick / datagram path over any peers, any table, every schedule *)
+Theorem C09_server_stop_clean : forall nstop news sweeps tbl cbs sched,
+  (forall p, NoDup (cbs p)) ->
+  let x := sexec ShutLib (s_init tbl cbs, server_threads nstop news sweeps) sched in
+  (forall p f, count_occ Nat.eq_dec (c_ran (s_peer (fst x) p)) f <= 1) /\
+  (sall_done (snd x) ->
+     s_table (fst x) = [] /\
+     forall p, In p tbl \/ In p news ->
+       (forall f, In f (cbs p) -> count_occ Nat.eq_dec (c_ran (s_peer (fst x) p)) f = 1) /\
+       peer_done (fst x) p = true).
+Proof. exact server_stop_clean. Qed.
+Print Assumptions C09_server_stop_clean.
+
+(* tie to the source: udp/server.Session.shutdown in the CURRENT source (Gen/WakeSets.v, regenerated on every run) is
+   exactly `defer s.doneCancel(); for _, f := range s.popOnClose() { f() }`, the ShutLib of the model *)
+Theorem C09_udp_shutdown_shape : udp_shutdown_plain = true.
+Proof. reflexivity. Qed.
+Print Assumptions C09_udp_shutdown_shape.
+
+(* that shutdown does not look at the done signal first is essential: with `if s.doneCtx.Err() != nil { return }` in
+   front, one Stop call and the Serve exit over two peers have a schedule (Stop takes the table and starts on the first
+   peer, Serve finishes and cancels the server's done context, Stop goes on) after which everything has returned,
+   both peers show Done completed, and the callback of the second peer has never run *)
+Theorem C09_shutdown_guard_on_done_refuted :
+  exists sched,
+    let x := sexec ShutGuarded (s_init [0; 1] (fun _ => [7]), server_threads 1 [] []) sched in
+    sall_done (snd x) /\ s_table (fst x) = [] /\
+    peer_done (fst x) 0 = true /\ peer_done (fst x) 1 = true /\
+    c_ran (s_peer (fst x) 0) = [7] /\ c_ran (s_peer (fst x) 1) = [].
+Proof. exact shutdown_guard_on_done_refuted. Qed.
+Print Assumptions C09_shutdown_guard_on_done_refuted.
+
 (* the hypotheses are satisfiable by non-trivial instances *)
 (* all client-operation functions of the inventory, one after the other, as one operation *)
 Example C09_instance_request :
@@ -259,3 +381,24 @@ Proof.
   split; [apply stall_sys_good; left; repeat constructor|].
   vm_compute. repeat split. repeat constructor.
 Qed.
+
+(* two concurrent housekeeping walks over three entries (one given up by each), two operations, a clean-up, an
+   acknowledgement: a schedule under which everything returns and the lock is free *)
+Example C09_instance_table :
+  let ts := lib_table_sys [[false; true; false]; [true; false; false]] 2 1 1 in
+  Forall (fun p => sec_ok p = true) ts /\
+  let x := texec (t_init, ts) (rr 6 40) in
+  tall_done (snd x) /\ fst x = t_init /\ 30 <= tmeasure ts.
+Proof.
+  split; [apply lib_table_sys_ok|].
+  vm_compute. repeat split; repeat constructor.
+Qed.
+
+(* three Stop calls, the Serve exit admitting two more peers, a sweep: four peers with two callbacks each *)
+Example C09_instance_stop :
+  let ts := server_threads 3 [2; 3] [[0; 2]] in
+  let x := sexec ShutLib (s_init [0; 1] (fun p => [10 * p; 10 * p + 1]), ts) (rr 5 40) in
+  sall_done (snd x) /\ s_table (fst x) = [] /\
+  map (fun p => List.length (c_ran (s_peer (fst x) p))) [0; 1; 2; 3] = [2; 2; 2; 2] /\
+  forallb (peer_done (fst x)) [0; 1; 2; 3] = true.
+Proof. vm_compute. repeat split; repeat constructor. Qed.
